@@ -122,6 +122,21 @@ structure State where
 
 def State.init : State := {}
 
+/-- Which `PayloadStream` implementation the camera drives.
+* `fake`: the recording fake of the correspondence harness — flag and loop change together, a
+  `stop_streaming_loop` fails when the fault plan says so (and then either leaves everything or
+  kills the loop, `stopFailKills`).
+* `u3v`: mirrors `cameleon::u3v::StreamHandle` — `is_loop_running() = cancellation_tx.is_some()`;
+  `start_streaming_loop` reads the stream parameters through the control handle (can fail),
+  then refuses with `InStreaming` when the flag is set, else stores the sender and spawns the
+  loop; `stop_streaming_loop` TAKES the sender (flag cleared) and then sends the cancellation,
+  which fails (`Poisoned`) exactly when the loop thread is gone.  The loop thread can die on its
+  own (panic) between calls: environment event `loopDies`. -/
+inductive HandleKind where
+  | fake
+  | u3v
+  deriving Repr, DecidableEq, Inhabited
+
 /-- Environment of a run: the fault plan, the description served by the device, and how the
 stream handle behaves when `stop_streaming_loop` fails (`true`: the loop is gone and the
 flag is cleared, like `u3v::StreamHandle`; `false`: nothing changes). -/
@@ -136,6 +151,8 @@ structure Env where
   openCtrlFirst : Bool := true
   /-- same for the two handle closes of `Camera::close` -/
   closeCtrlFirst : Bool := true
+  /-- the stream handle implementation -/
+  handle : HandleKind := .fake
 
 /-- Camera computations: state transformer with `Res` outcome (`?` = bind). -/
 def M (α : Type) : Type := State → Res Err α × State
@@ -186,8 +203,18 @@ def ctrlOpenOp (env : Env) : M Unit :=
   subOp env .ctrlOpen false ctrlErr (fun d => { d with ctrlOpen := true })
 def ctrlCloseOp (env : Env) : M Unit :=
   subOp env .ctrlClose false ctrlErr (fun d => { d with ctrlOpen := false })
-def strmOpenOp (env : Env) : M Unit :=
-  subOp env .strmOpen false (fun _ => .streamIo) (fun d => { d with strmOpen := true })
+/-- The environment that decides the outcome of `PayloadStream::open`: the fault plan, except
+that the `u3v` handle returns `Ok` at once while its loop runs (`if self.is_loop_running()
+{ return Ok(()) }`: the loop owns the receive channel and keeps its lock for its whole life —
+no lock is taken, nothing can fail). -/
+def openEnv (env : Env) (d : Dev) : Env :=
+  match env.handle with
+  | .fake => env
+  | .u3v => if d.loopFlag then { env with plan := fun _ => false } else env
+
+def strmOpenOp (env : Env) : M Unit := do
+  let d ← getDev
+  subOp (openEnv env d) .strmOpen false (fun _ => .streamIo) (fun d => { d with strmOpen := true })
 def strmCloseOp (env : Env) : M Unit :=
   subOp env .strmClose false (fun _ => .streamIo) (fun d => { d with strmOpen := false })
 def genapiOp (env : Env) : M Xml := do
@@ -201,19 +228,54 @@ def disableOp (env : Env) : M Unit :=
 /-- `DEFAULT_BUFFER_CAP` of `start_streaming` (capacity of the give-back channel). -/
 def DEFAULT_BUFFER_CAP : Nat := 5
 
-/-- `start_streaming_loop(sender, ..)`: a permissive stream handle — it does not itself refuse a
-second loop (so that the camera's own check is what the theorems are about).  The loop keeps
-the `sender` end of `channel(cap, DEFAULT_BUFFER_CAP)`; the caller gets the `receiver` end of
-the SAME channel. -/
-def loopStartOp (env : Env) (cap : Nat) : M Unit :=
-  subOp env .loopStart false (fun _ => .streamIo)
-    (fun d => { d with loops := d.loops + 1, loopFlag := true, chan := some (cap, DEFAULT_BUFFER_CAP) })
+/-- `start_streaming_loop(sender, ..)`.  First the part that can fail (the recording fake: an
+injected fault; `u3v::StreamHandle`: `StreamParams::from_control(ctrl)`), one sub-operation.
+Then the `u3v` handle refuses with `InStreaming` when its flag is set (the fake is permissive on
+purpose: it does not itself refuse a second loop, so that the camera's own check is what the
+theorems are about).  Then the loop is started: it keeps the `sender` end of
+`channel(cap, DEFAULT_BUFFER_CAP)`; the caller gets the `receiver` end of the SAME channel. -/
+def loopStartOp (env : Env) (cap : Nat) : M Unit := do
+  subOp env .loopStart false (fun _ => .streamIo) id
+  let d ← getDev
+  if env.handle = .u3v ∧ d.loopFlag = true then throwErr .inStreaming
+  else modifyDev (fun d =>
+    { d with loops := d.loops + 1, loopFlag := true, chan := some (cap, DEFAULT_BUFFER_CAP) })
 
-def loopStopOp (env : Env) : M Unit :=
-  subOp env .loopStop false (fun _ => .streamPoisoned)
-    (fun d => { d with loops := d.loops - 1, loopFlag := decide (0 < d.loops - 1), chan := none })
-    (fun d => if env.stopFailKills then { d with loops := d.loops - 1, loopFlag := false, chan := none }
-      else d)
+/-- The environment that decides the outcome of `stop_streaming_loop`: the fault plan for the
+fake; for the `u3v` handle the send of the cancellation signal fails exactly when the handle
+holds a sender (`loopFlag`) whose loop thread is gone (`loops = 0`). -/
+def stopEnv (env : Env) (d : Dev) : Env :=
+  match env.handle with
+  | .fake => env
+  | .u3v => { env with plan := fun _ => d.loopFlag && d.loops == 0 }
+
+/-- successful `stop_streaming_loop` -/
+def loopStopUpd (env : Env) (d : Dev) : Dev :=
+  match env.handle with
+  | .fake => { d with loops := d.loops - 1, loopFlag := decide (0 < d.loops - 1), chan := none }
+  | .u3v =>
+    -- `if self.is_loop_running() { take the sender; send }`: nothing to do without a sender
+    if d.loopFlag then { d with loops := d.loops - 1, loopFlag := false, chan := none } else d
+
+/-- failed `stop_streaming_loop` -/
+def loopStopFail (env : Env) (d : Dev) : Dev :=
+  match env.handle with
+  | .fake =>
+    if env.stopFailKills then { d with loops := d.loops - 1, loopFlag := false, chan := none } else d
+  | .u3v =>
+    -- the sender was taken before the send failed: the flag is cleared, the loop was gone already
+    { d with loopFlag := false, chan := none }
+
+def loopStopOp (env : Env) : M Unit := do
+  let d ← getDev
+  subOp (stopEnv env d) .loopStop false (fun _ => .streamPoisoned) (loopStopUpd env) (loopStopFail env)
+
+/-- Environment event (not a call of the camera): the receive loop thread dies on its own
+(a panic in the loop).  Only the `u3v` handle has a thread; its flag is NOT updated. -/
+def loopDies (env : Env) : M Unit :=
+  match env.handle with
+  | .fake => pure ()
+  | .u3v => modifyDev (fun d => if 0 < d.loops then { d with loops := d.loops - 1, chan := none } else d)
 
 /-! ### GenApi node operations through `ParamsCtxt` -/
 
@@ -368,6 +430,20 @@ def runOps (env : Env) : List Op → State → State
 def runResults (env : Env) : List Op → State → List (Res Err Unit)
   | [], _ => []
   | op :: ops, s => (step env op s).1 :: runResults env ops (step env op s).2
+
+/-- A history: calls of the camera interleaved with environment events. -/
+inductive Ev where
+  | call (op : Op)
+  | loopDies
+  deriving Repr, DecidableEq, Inhabited
+
+def stepEv (env : Env) : Ev → State → Res Err Unit × State
+  | .call op, s => step env op s
+  | .loopDies, s => loopDies env s
+
+def runEvs (env : Env) : List Ev → State → State
+  | [], s => s
+  | ev :: evs, s => runEvs env evs (stepEv env ev s).2
 
 /-- Effect of one trace entry on the number of live loops. -/
 def loopDelta (stopFailKills : Bool) (n : Nat) (e : Effect) : Nat :=
